@@ -48,7 +48,7 @@ C["C02"] = dict(level="other",
  stubs=["zzMsgs (socket.Messages)", "zzBytesCodec (body codec)"],
  bounds={"calls": "2", "frames": "quick 2, thorough 3", "write faults": "at most 1", "modes": "default, directIO, client pipelining", "schedules": SCHED},
  outside=["Done channels without room", "more calls/frames than the bound", "schedules needing preemption inside a lock-free segment (thorough runs gran 1, P=1 on a smaller script)"],
- runs={"quick": [run("C02", labels=["exactly-once", "panic"]), run("CLI", labels=["each-call-signalled-once"]), run("C02r", P=1, gran=1, labels=["exactly-once", "outstanding-call-fails", "no-goroutine-stuck", "panic"])],
+ runs={"quick": [run("C02", labels=["exactly-once", "panic"]), run("CLI", labels=["each-call-signalled-once"]), run("C02r", P=1, gran=1, labels=["exactly-once", "outstanding-call-completes", "outstanding-call-fails", "no-goroutine-stuck", "panic"])],
        "thorough": [run("C02", params={"c02.F": 3}, labels=["exactly-once", "panic"], budget=1500), run("C02", P=1, gran=1, params={"c02.F": 1}, labels=["exactly-once", "panic"], budget=1500), run("C02r", P=2, gran=1, labels=["exactly-once", "outstanding-call-fails", "no-goroutine-stuck", "panic"], budget=900)]})
 
 C["C03"] = dict(level="other",
@@ -58,7 +58,7 @@ C["C03"] = dict(level="other",
  stubs=["zzMsgs (socket.Messages)", "zzBytesCodec"],
  bounds={"callers": "2 of either kind (thorough: 3 plain callers)", "cut": "after 0..K responses", "modes": "default, directIO, client pipelining", "schedules": SCHED},
  outside=["wall-clock bounds", "TLS/ws framing"],
- runs={"quick": [run("C03"), run("STRc", labels=["reader-unblocked", "blocked-read-returns-shutdown", "open-fails-when-connection-ends-first"]), run("C02r", P=1, gran=1, labels=["outstanding-call-fails", "no-goroutine-stuck"])], "thorough": [run("C03", params={"c03.K": 3, "c03.pings": 0}, budget=1800), run("STRc", P=1, gran=1, params={"str.N": 1, "str.badwrite": 0}, labels=["reader-unblocked", "blocked-read-returns-shutdown"], budget=600)]})
+ runs={"quick": [run("C03"), run("STRc", labels=["reader-unblocked", "blocked-read-returns-shutdown", "open-fails-when-connection-ends-first"]), run("C02r", labels=["outstanding-call-completes", "outstanding-call-fails", "no-goroutine-stuck"]), run("C02r", P=1, gran=1, labels=["outstanding-call-completes", "outstanding-call-fails", "no-goroutine-stuck"])], "thorough": [run("C03", params={"c03.K": 3, "c03.pings": 0}, budget=1800), run("STRc", P=1, gran=1, params={"str.N": 1, "str.badwrite": 0}, labels=["reader-unblocked", "blocked-read-returns-shutdown"], budget=600)]})
 
 C["C04"] = dict(level="other",
  explanation="Symbolic execution of the real server path ServeCodec -> ServeRequest -> handleRequest -> readRequestBody -> callService -> sendResponse with the real serverCodec: N request frames of every kind (each handler shape, failing handler, unknown method, ping), symbolic argument bytes, all server modes (pipelining x directIO x context buffer x buffer size), frames arriving together or one by one; the execution log must contain exactly one entry per executable request with that request's own argument bytes, pings none, and the write log exactly one response per request with its sequence number.",
